@@ -178,15 +178,6 @@ func runC15(c *Ctx) {
 			c.Count(fmt.Sprintf("enc_items_%d", bucket(len(items))))
 			enc := portalwire.VerifEncodeContents(items)
 			c.Emit("enc %s | %s", hxl(items), hx(enc))
-			if len(enc) < 20000 && len(items) > 0 && r.Intn(3) == 0 {
-				// a joined payload is a value: later joins (of payloads that fit the same scratch space) must not change it
-				other := make([][]byte, len(items))
-				for j := range other {
-					other[j] = r.Bytes(len(items[j]))
-				}
-				c.Count("hold")
-				c15hold(c, items, other)
-			}
 			if len(enc) < 70000 {
 				c15hoc(c, len(items), enc)
 				if len(items) > 0 {
@@ -203,6 +194,15 @@ func runC15(c *Ctx) {
 					c.Count("trunc")
 					c.Emit("trunc %s %d | %s", hxl(items), cut, c15decLine(enc[:cut]))
 				}
+			}
+			if len(enc) < 20000 && len(items) > 0 && r.Intn(3) == 0 {
+				// a joined payload is a value: later joins (of payloads that fit the same scratch space) must not change it
+				other := make([][]byte, len(items))
+				for j := range other {
+					other[j] = r.Bytes(len(items[j]))
+				}
+				c.Count("hold")
+				c15hold(c, items, other)
 			}
 		case k < 6: // mutate a valid encoding
 			cnt := 1 + r.Intn(4)
